@@ -837,6 +837,8 @@ def check_constructor_keywords_not_fed_from_other_packets(ctx, rule='R6-fresh-va
 
 
 def check(ctx):
+    from ..model import check_strategies_read_the_name_at_call_time
+    check_strategies_read_the_name_at_call_time(ctx, 'R5-name-at-call-time')
     funcs = runtime_functions(ctx)
     check_fixture(ctx)
     check_statelessness(ctx, funcs)
